@@ -63,6 +63,9 @@ pub fn header_name() -> impl Strategy<Value = String> {
         1 => "[a-z]{6,8}",
         1 => "x-[a-z0-9!#$%&'*+.^_`|~-]{1,12}",
         1 => "[a-z0-9-]{130,138}",
+        // encoded length exactly at the 3-bit prefix + 128 = 135 (literal: '#' does not shrink under
+        // Huffman; Huffman: 216 x 'a' take exactly 135 bytes) and its neighbours
+        1 => proptest::sample::select(vec!["#".repeat(134), "#".repeat(135), "#".repeat(136), "a".repeat(215), "a".repeat(216), "a".repeat(217)]),
     ]
 }
 
@@ -74,6 +77,8 @@ pub fn header_value() -> impl Strategy<Value = String> {
         1 => Just(String::new()),
         1 => "[a-z]{120,135}",
         1 => "[a-z][a-z ]{250,260}[a-z]",
+        // encoded length exactly at the 7-bit prefix + 128 = 255 and its neighbours
+        1 => proptest::sample::select(vec!["#".repeat(254), "#".repeat(255), "#".repeat(256), "a".repeat(407), "a".repeat(408), "a".repeat(409)]),
         1 => "[#-&(-+]{100,140}",
         2 => "[!-~]\\PC{0,30}[!-~]",
         1 => "[!-~]{900,1900}",
